@@ -10,6 +10,7 @@ import Driver.Sig
 import Driver.Alleg
 import Driver.Gov
 import Driver.Elect
+import Driver.Evm
 
 def main (args : List String) : IO UInt32 := do
   match args with
@@ -25,4 +26,5 @@ def main (args : List String) : IO UInt32 := do
   | ["alleg"] => Driver.Alleg.main; return 0
   | ["gov"] => Driver.Gov.main; return 0
   | ["elect"] => Driver.Elect.main; return 0
+  | ["evm"] => Driver.Evm.main; return 0
   | _ => IO.eprintln "usage: olpdriver <engine>  (engines: kv, shell)"; return 2
